@@ -1063,12 +1063,13 @@ func (c *pieceCtx) r8(rule string) {
 		return
 	}
 	r.Fn(add)
+	// the copy into the piece buffer: in AddData or in a private helper of it (storeChunk)
 	var cp *ssa.Call
 	for _, ld := range c.dataLoads() {
 		var uses []dataUse
 		usesOfBuffer(ld, &uses, map[ssa.Value]bool{})
 		for _, u := range uses {
-			if u.Kind == "copy-dst" && u.In.Parent() == add {
+			if u.Kind == "copy-dst" && (u.In.Parent() == add || p.inUnitOf(u.In.Parent(), add)) {
 				cp = u.In.(*ssa.Call)
 			}
 		}
@@ -1077,28 +1078,71 @@ func (c *pieceCtx) r8(rule string) {
 		r.Undecided(rule, "AddData/copy", add.Pos(), "no copy into the piece buffer found in AddData")
 		return
 	}
+	cf := cp.Parent()
+	r.Fn(cf)
+	// site: the instruction of AddData that performs the copy (the copy itself, or the call of the helper that does)
+	var site ssa.Instruction = cp
+	if cf != add {
+		site = nil
+		allInstrs(add, func(in ssa.Instruction) {
+			if calleeOf(in) == cf {
+				site = in
+			}
+		})
+		if site == nil {
+			r.Undecided(rule, "AddData/copy", add.Pos(), "the copy sits in %s, which AddData does not call directly", fname(cf))
+			return
+		}
+	}
 	begin := add.Params[2]
 	chunk, _ := chunkSizeConst(p)
-	// rejecting guards on begin
-	aligned := hasGuard(cp.Block(), func(op token.Token, x, y ssa.Value) bool {
-		rem, ok := x.(*ssa.BinOp)
-		z, okz := constInt(y)
-		if !(op == token.EQL && okz && z == 0 && ok && rem.Op == token.REM && rem.X == ssa.Value(begin)) {
-			return false
+	// the piece length the offset is compared with: PieceLength(index), possibly held in a local
+	var plVal ssa.Value
+	allInstrs(add, func(in ssa.Instruction) {
+		if cc, ok := in.(*ssa.Call); ok && isCallNamed(cc, "tor/piece", "PieceLength") {
+			plVal = cc
 		}
-		k, okk := constInt(rem.Y)
-		return okk && k == chunk
 	})
-	r.Check(aligned, rule, "AddData/begin-aligned", cp.Pos(), "the copy is dominated by begin %% ChunkSize == 0", "the copy into the piece buffer is not dominated by the block-alignment check on begin")
-	inPiece := hasGuard(cp.Block(), func(op token.Token, x, y ssa.Value) bool {
-		if op != token.LSS || x != ssa.Value(begin) {
-			return false
+	isPL := func(sj []ssa.Value, v ssa.Value) bool {
+		v = strip(v)
+		if cc, ok := v.(*ssa.Call); ok && isCallNamed(cc, "tor/piece", "PieceLength") {
+			return true
 		}
-		cc, ok := strip(y).(*ssa.Call)
-		return ok && isCallNamed(cc, "tor/piece", "PieceLength")
-	})
-	r.Check(inPiece, rule, "AddData/begin<PieceLength", cp.Pos(), "the copy is dominated by begin < PieceLength(index)", "the copy into the piece buffer is not dominated by begin < PieceLength(index)")
-	// not already present: !bitmap.Get(c) on the same c that is Set afterwards
+		return sj[1] != nil && v == sj[1]
+	}
+	reqs := []edgeReq{
+		{Name: "begin % ChunkSize == 0", ViaHelper: true, Subj: []ssa.Value{begin, plVal}, MatchS: func(sj []ssa.Value, cond ssa.Value, pol bool) bool {
+			op, x, y, ok := cmpFact(Guard{Cond: cond, Pol: pol})
+			if !ok || op != token.EQL || sj[0] == nil {
+				return false
+			}
+			rem, okr := x.(*ssa.BinOp)
+			z, okz := constInt(y)
+			if !(okz && z == 0 && okr && rem.Op == token.REM && stripIntConv(rem.X) == sj[0]) {
+				return false
+			}
+			k, okk := constInt(rem.Y)
+			return okk && k == chunk
+		}},
+		{Name: "begin < PieceLength(index)", ViaHelper: true, Subj: []ssa.Value{begin, plVal}, MatchS: func(sj []ssa.Value, cond ssa.Value, pol bool) bool {
+			op, x, y, ok := cmpFact(Guard{Cond: cond, Pol: pol})
+			if !ok || sj[0] == nil {
+				return false
+			}
+			return (op == token.LSS && stripIntConv(x) == sj[0] && isPL(sj, y)) || (op == token.GTR && stripIntConv(y) == sj[0] && isPL(sj, x))
+		}},
+	}
+	miss, reached := pathsMissingEntry(add, func(in ssa.Instruction) bool { return in == site }, nil, reqs)
+	missing := map[string]bool{}
+	for _, m := range miss {
+		missing[m] = true
+	}
+	if reached == 0 {
+		r.Undecided(rule, "AddData/copy-reachable", cp.Pos(), "the copy is not reachable from the entry of AddData")
+	}
+	r.Check(!missing[reqs[0].Name], rule, "AddData/begin-aligned", cp.Pos(), "every path to the copy tests begin %% ChunkSize == 0", "the copy into the piece buffer is not preceded on every path by the block-alignment check on begin")
+	r.Check(!missing[reqs[1].Name], rule, "AddData/begin<PieceLength", cp.Pos(), "every path to the copy tests begin < PieceLength(index)", "the copy into the piece buffer is not preceded on every path by begin < PieceLength(index)")
+	// not already present: !bitmap.Get(c) on the same c that is Set afterwards (in the function that copies)
 	var getCall *ssa.Call
 	for _, g := range guardsOf(cp.Block()) {
 		g = g.norm()
@@ -1114,7 +1158,7 @@ func (c *pieceCtx) r8(rule string) {
 		r.Fail(rule, "AddData/no-overwrite", cp.Pos(), "the copy is not dominated by !bitmap.Get(block): a block already present could be overwritten")
 	} else {
 		same := false
-		allInstrs(add, func(in ssa.Instruction) {
+		allInstrs(cf, func(in ssa.Instruction) {
 			if cc, ok := in.(*ssa.Call); ok {
 				if cal := cc.Call.StaticCallee(); cal != nil && cal.Name() == "Set" && relPkg(cal) == "bitmap" && cc.Block() == cp.Block() {
 					if cc.Call.Args[1] == getCall.Call.Args[1] {
@@ -1125,43 +1169,35 @@ func (c *pieceCtx) r8(rule string) {
 		})
 		r.Check(same, rule, "AddData/no-overwrite", cp.Pos(), "a block is copied only when absent and the same block number is marked present", "the block number tested with Get is not the one marked with Set after the copy")
 	}
-	// length guard: len(data) >= count + l  (loop leaves when uint32(len(data)) < count+l)
-	lenOK := hasGuard(cp.Block(), func(op token.Token, x, y ssa.Value) bool {
-		// uint32(len(data)) >= count+l
-		if op != token.GEQ {
-			return false
+	// the source of each copy is a slice data[count : count+l] of the incoming data (its bounds are C05.R2's sinks)
+	// with l clamped to the block size: l = min(PieceLength-offset, ChunkSize) in one of its spellings
+	var src ssa.Value = cp.Call.Args[1]
+	if cf != add {
+		// the helper's parameter: what AddData passes for it
+		for k, prm := range cf.Params {
+			if ssa.Value(prm) == src {
+				if ci, ok := site.(ssa.CallInstruction); ok && k < len(ci.Common().Args) {
+					src = ci.Common().Args[k]
+				}
+			}
 		}
-		cv, ok := strip(x).(*ssa.Call)
-		if !ok {
-			return false
-		}
-		bi, ok := cv.Call.Value.(*ssa.Builtin)
-		if !ok || bi.Name() != "len" || cv.Call.Args[0] != ssa.Value(add.Params[3]) {
-			return false
-		}
-		bo, ok := y.(*ssa.BinOp)
-		return ok && bo.Op == token.ADD
-	})
-	r.Check(lenOK, rule, "AddData/source-long-enough", cp.Pos(), "the copy is dominated by len(data) >= count+l", "the copy is not dominated by the check that the source holds count+l bytes")
-	// clamp: l <= ChunkSize and l = PieceLength - offset
-	src := cp.Call.Args[1]
+	}
 	if sl, ok := src.(*ssa.Slice); ok && sl.High != nil {
 		hb, isAdd := sl.High.(*ssa.BinOp)
 		okClamp := false
 		if isAdd && hb.Op == token.ADD {
 			for _, cand := range []ssa.Value{hb.X, hb.Y} {
+				if iv := (&IntEnv{}).At(cand, sl.Block()); iv.Hi <= chunk {
+					okClamp = true
+				}
 				if ph, ok := cand.(*ssa.Phi); ok {
-					// l = phi(pl-offset, cs)
-					hasCS, hasDiff := false, false
+					hasCS := false
 					for _, e := range ph.Edges {
 						if k, okk := constInt(e); okk && k == chunk {
 							hasCS = true
 						}
-						if bo, okb := e.(*ssa.BinOp); okb && bo.Op == token.SUB {
-							hasDiff = true
-						}
 					}
-					okClamp = hasCS && hasDiff
+					okClamp = okClamp || hasCS
 				}
 				if cc, ok := cand.(*ssa.Call); ok {
 					if bi, ok := cc.Call.Value.(*ssa.Builtin); ok && bi.Name() == "min" {
@@ -1170,9 +1206,9 @@ func (c *pieceCtx) r8(rule string) {
 				}
 			}
 		}
-		r.Check(okClamp, rule, "AddData/block-clamp", cp.Pos(), "each copy is clamped to min(PieceLength-offset, ChunkSize)", "the per-block length is no longer clamped to min(PieceLength-offset, ChunkSize)")
+		r.Check(okClamp, rule, "AddData/block-clamp", cp.Pos(), "each copy is clamped to at most one block", "the per-block length is no longer clamped to min(PieceLength-offset, ChunkSize)")
 	} else {
-		r.Undecided(rule, "AddData/block-clamp", cp.Pos(), "the source of the copy is not a bounded slice of the incoming data")
+		r.Info(rule, "AddData/block-clamp", cp.Pos(), "the source of the copy is not a slice expression the clamp rule recognises; its bounds are judged by C05.R2")
 	}
 }
 
